@@ -34,6 +34,8 @@ pub proof fn ids_lawful()
         forall|a: Oid, b: Oid| #[trigger] vstd::std_specs::cmp::PartialEqSpec::eq_spec(&a, &b) <==> a == b,
         vstd::laws_cmp::obeys_cmp_spec::<Oid>(), vstd::laws_cmp::obeys_cmp_spec::<PublicKey>(), vstd::laws_cmp::obeys_cmp_spec::<Did>(),
 {}
+/// ASSUMED (derive(PartialEq) on the fieldless enum State): structural equality
+impl vstd::std_specs::cmp::PartialEqSpecImpl for State { open spec fn obeys_eq_spec() -> bool { true } open spec fn eq_spec(&self, o: &Self) -> bool { *self == *o } }
 pub uninterp spec fn delegate(doc: Doc, did: Did) -> bool;
 pub uninterp spec fn sig_ok(key: PublicKey, blob: Oid, sig: Signature) -> bool;
 #[derive(Clone, Debug)] pub struct Doc { pub opaque: u64 }
@@ -155,7 +157,10 @@ pub fn vx_assert_parent(parent: Option<RevisionId>, current: RevisionId) require
 //@      /// ASSUMED (by inspection of its two assignments): `current` stays or becomes `id`; verdicts and heads are untouched.
 //@      #[verifier::external_body]
 //@      fn adopt(&mut self, id: RevisionId)
-//@          requires old(self).voted(old(self).cur().doc, id)
+//@          requires
+//@              old(self).voted(old(self).cur().doc, id),
+//@              // C04: "never replaced by one that is not its successor"
+//@              id == old(self).current || (old(self).revisions@.contains_key(id) && old(self).revisions@[id] is Some && old(self).revisions@[id]->Some_0.parent == Some(old(self).current)), //[C04]
 //@          ensures
 //@              final(self).current == old(self).current || final(self).current == id,
 //@              final(self).heads == old(self).heads,
@@ -176,6 +181,8 @@ pub fn vx_assert_parent(parent: Option<RevisionId>, current: RevisionId) require
 //@        assert(self.voted(self.cur().doc, id));
 //@      hint 2 self\.adopt\(id\);
 //@        assert(self.revisions@.contains_key(id) && self.revisions@[id] is Some);
+//@        assert(current.id == old(self).current);
+//@        assert(self.revisions@[id]->Some_0.parent == Some(self.current));
 //@        assert(self.revisions@[id]->Some_0.accepted_by(author));
 //@        assert(self.heads@.contains_key(Did(author)) && self.heads@[Did(author)] == id);
 //@        assert(self.cur().doc == current.doc);
